@@ -7,6 +7,7 @@
 -/
 import GIV.Lemmas.CacheRefine
 import GIV.Lemmas.CacheWitness
+import GIV.Lemmas.CacheHist
 
 namespace GIV.C05
 open GIV GIV.Cache
@@ -250,5 +251,215 @@ example : runC sha256 FS.empty [(1, .put id1 [65]), (2, .put id2 [65, 66]), (3, 
     intro p hp
     simp only [List.mem_cons, List.not_mem_nil, or_false] at hp
     rcases hp with rfl | rfl | rfl | rfl | rfl <;> simp [OpOK, exC])
+
+/-! ### histories: the operations interleaved with on-disk damage
+
+`Ev` = Put/PutBytes, Get, GetBytes, GetFile, OutputFile, `write name bytes mtime` (any file gets any bytes:
+truncate, extend, flip, replace, create) and `delete name` (what Trim or a user does); `runE H fs evs` = the
+observations of the history `evs` started in directory `fs`, `endE H fs evs` = the directory it leaves
+(GIV.Lemmas.CacheHist). -/
+
+/-- one event, in any directory: its observation satisfies the gates (`Sound`). -/
+theorem event_sound (H : Bytes → Hash) (fs : FS) (now : Int) (ev : Ev) : Sound H (stepE H fs now ev).1 := by
+  cases ev with
+  | put _ _ => trivial
+  | outputFile _ => trivial
+  | write _ _ _ => trivial
+  | delete _ => trivial
+  | get id => exact (lookup_total H fs now id).1
+  | getBytes id =>
+    show Sound H (.bytes (getBytes H fs now id).1)
+    cases hr : (getBytes H fs now id).1 with
+    | error r =>
+      show r ≠ .panic
+      intro hp; subst hp
+      exact (lookup_total H fs now id).2.2.1 hr
+    | ok v =>
+      obtain ⟨d, e⟩ := v
+      exact getBytes_gate H fs now id d e _ (Prod.ext hr rfl)
+  | getFile id =>
+    simp only [stepE]
+    cases hr : (getFile fs now id).1 with
+    | error r =>
+      show r ≠ .panic
+      intro hp; subst hp
+      exact (lookup_total H fs now id).2.1 hr
+    | ok v =>
+      obtain ⟨f, e⟩ := v
+      obtain ⟨file, hfile, hlen, hname⟩ := getFile_gate fs now id f e _ (Prod.ext hr rfl)
+      exact ⟨hname, file.data, by simp [dataOf, hfile], hlen⟩
+
+/-- **The gates over histories.** For every hash function, every initial cache directory and EVERY sequence of
+Put / Get / GetBytes / GetFile / OutputFile interleaved with arbitrary on-disk damage (any bytes under any name,
+any deletion), every observation made along the way is sound: no lookup panics; GetBytes returns not-found or
+bytes whose hash is the reported OutputID; GetFile returns not-found or the output file name of the reported
+OutputID, and that file then holds exactly as many bytes as the reported size. -/
+theorem history_gates (H : Bytes → Hash) (fs : FS) (evs : List (Int × Ev)) : ∀ o ∈ runE H fs evs, Sound H o := by
+  induction evs generalizing fs with
+  | nil => intro o ho; cases ho
+  | cons p rest ih =>
+    obtain ⟨now, ev⟩ := p
+    intro o ho
+    simp only [runE, List.mem_cons] at ho
+    rcases ho with rfl | ho
+    · exact event_sound H fs now ev
+    · exact ih _ o ho
+
+/-- a history in which the data file is replaced by bytes of the right length but the wrong hash (GetBytes: bad
+checksum) and then truncated (GetFile: file incomplete) — both lookups answer not-found, and the theorem says so
+without evaluating them. -/
+example : ∀ o ∈ runE toyH exFS
+    [(1, .write (fileName (toyH [65]) keyD) [66] 0), (2, .getBytes id1),
+     (3, .write (fileName (toyH [65]) keyD) [] 0), (4, .getFile id1), (5, .delete (fileName id1 keyA)), (6, .get id1)],
+    Sound toyH o := history_gates _ _ _
+
+example : (stepE toyH (exFS.set (fileName (toyH [65]) keyD) ⟨[66], 0⟩) 2 (.getBytes id1)).1 = .bytes (.error .badChecksum) := by
+  obtain ⟨t, ht⟩ := exFS_stored.get 2
+  have hs : Stored toyH exFS id1 [65] := exFS_stored
+  have hidx : dataOf (exFS.set (fileName (toyH [65]) keyD) ⟨[66], 0⟩) (fileName id1 keyA) =
+      some (fmtEntry id1 (toyH [65]) 1 7) := by
+    simp [exFS, dataOf, FS.get_set, fileName_a_ne_d]
+  have hg := get_of_data _ 2 id1 _ hidx
+  rw [parse_fmt id1 (toyH [65]) 1 7 (by decide) (by decide) (by decide) (by decide)] at hg
+  simp only [stepE, getBytes]
+  cases hgr : Cache.get (exFS.set (fileName (toyH [65]) keyD) ⟨[66], 0⟩) 2 id1 with
+  | mk r fs1 =>
+    rw [hgr] at hg
+    simp only at hg
+    subst hg
+    have hsd := get_sameData (exFS.set (fileName (toyH [65]) keyD) ⟨[66], 0⟩) 2 id1
+    rw [hgr] at hsd
+    have hd : dataOf (used fs1 2 (fileName (toyH [65]) keyD)) (fileName (toyH [65]) keyD) = some [66] := by
+      rw [dataOf_used, hsd]; simp [dataOf, FS.get_set]
+    simp only [outputFile]
+    unfold dataOf at hd
+    have ⟨f, hf, hfd⟩ : ∃ f, (used fs1 2 (fileName (toyH [65]) keyD)).get (fileName (toyH [65]) keyD) = some f ∧ f.data = [66] := by
+      cases hf : (used fs1 2 (fileName (toyH [65]) keyD)).get (fileName (toyH [65]) keyD) with
+      | none => rw [hf] at hd; simp at hd
+      | some f => rw [hf] at hd; simp at hd; exact ⟨f, rfl, hd⟩
+    have : Gen.Cache.getBytesReject (toyH [66]) (toyH [65]) = true := by decide
+    simp [hf, hfd, this]
+
+/-- **After Put, exactly the data, until the entry is overwritten, trimmed or damaged — over histories.**
+Let ANY history `pre` (operations and damage of any kind) run from ANY directory `fs`; then `Put(id, data)` at
+time `now`; then any history `later` none of whose events overwrites, deletes or damages the entry's two files
+(`Quiet`: Puts are for other ids and do not store different content under the same OutputID; writes and deletions
+hit other names; lookups of anything are allowed).  Then the Put succeeds with OutputID `H data` and size
+`len data`; every `Get(id)`, `GetBytes(id)`, `GetFile(id)` inside `later` answers with exactly `data`
+(`Answers`); and at the end, at any time `now'`, `GetBytes(id)` returns exactly `data` and `GetFile(id)` names a
+file holding exactly `data`.
+`hH` (`NoTwin`): no other byte string of the same length has the same hash as `data` — the only case in which
+`copyFile` trusts what it finds on disk. -/
+theorem history_put_get (H : Bytes → Hash) (fs : FS) (pre later : List (Int × Ev)) (now : Int) (id : Hash) (data : Bytes)
+    (hn0 : 0 ≤ now) (hn1 : now < 2 ^ 63) (hlen : (data.length : Int) < 2 ^ 63) (hH : NoTwin H data)
+    (hq : ∀ p ∈ later, Quiet H id data p.2) :
+    runE H fs (pre ++ (now, .put id data) :: later) =
+      runE H fs pre ++ .put (.ok (H data, data.length)) :: runE H (put H (endE H fs pre) now id data).2 later ∧
+    (∀ x ∈ List.zip later (runE H (put H (endE H fs pre) now id data).2 later), Answers H id data x.1.2 x.2) ∧
+    ∀ now',
+      (∃ t, (getBytes H (endE H fs (pre ++ (now, .put id data) :: later)) now' id).1 =
+        .ok (data, ⟨H data, data.length, t⟩)) ∧
+      (∃ t, (getFile (endE H fs (pre ++ (now, .put id data) :: later)) now' id).1 =
+        .ok (fileName (H data) keyD, ⟨H data, data.length, t⟩)) ∧
+      dataOf (getFile (endE H fs (pre ++ (now, .put id data) :: later)) now' id).2 (fileName (H data) keyD) = some data := by
+  obtain ⟨hok, hst⟩ := stored_after_put H (endE H fs pre) now id data hn0 hn1 hlen hH
+  have hend : Stored H (endE H fs (pre ++ (now, .put id data) :: later)) id data := by
+    rw [endE_append]
+    exact Stored.end_quiet later hq hst
+  refine ⟨?_, Stored.run_answers later hq hst, fun now' => ⟨hend.getBytes now', hend.getFile now', ?_⟩⟩
+  · rw [runE_append]
+    simp only [runE, stepE, hok]
+  · rw [getFile_sameData]; exact hend.2.1
+
+/-- a history with damage before the Put (the output file holds junk of the right length, the index entry is gone)
+and traffic after it (another id stored, a foreign file written, another entry deleted, lookups). -/
+example : ∃ t, (getBytes toyH (endE toyH exFS
+    ([(1, .write (fileName (toyH [65]) keyD) [66] 0), (2, .delete (fileName id1 keyA))] ++ (3, .put id1 [65]) ::
+     [(4, .put id2 [65, 66]), (5, .write [1, 2] [3] 0), (6, .getBytes id2), (7, .delete (fileName id2 keyA)),
+      (8, .put id2 [65]), (9, .outputFile (toyH [65]))])) 10 id1).1 = .ok ([65], ⟨toyH [65], 1, t⟩) := by
+  have hne : ¬ id2 = id1 := by decide
+  have hkey : ¬ toyH [65, 66] = toyH [65] := by decide
+  refine ((history_put_get toyH exFS _ _ 3 id1 [65] (by decide) (by decide) (by decide) toyH_noTwin_65 ?_).2.2 10).1
+  intro p hp
+  simp only [List.mem_cons, List.not_mem_nil, or_false] at hp
+  rcases hp with rfl | rfl | rfl | rfl | rfl | rfl
+  · exact ⟨hne, fun h => absurd h hkey⟩
+  · exact ⟨fun h => absurd (congrArg List.length h) (by rw [fileName_length]; simp only [List.length_cons, List.length_nil]; omega),
+      fun h => absurd (congrArg List.length h) (by rw [fileName_length]; simp only [List.length_cons, List.length_nil]; omega)⟩
+  · trivial
+  · exact ⟨fun h => hne (fileName_inj h), fun h => fileName_a_ne_d _ _ h⟩
+  · exact ⟨hne, fun _ => rfl⟩
+  · trivial
+
+/-- **A later Put of the same content repairs the entry after ANY damage**: whatever history `dmg` — any number of
+truncations, extensions, flips, replacements, deletions of the data file, of the index entry, of anything else,
+mixed with any operations — has run from whatever directory, `Put(id, data)` succeeds, the output file then holds
+exactly `data` and `GetBytes(id)` / `GetFile(id)` return it.  (`put_repairs` above is the single-step form for the
+data file; this form also covers a deleted data file and a damaged index entry.) -/
+theorem put_repairs_any_damage (H : Bytes → Hash) (fs : FS) (dmg : List (Int × Ev)) (now now' : Int) (id : Hash) (data : Bytes)
+    (hn0 : 0 ≤ now) (hn1 : now < 2 ^ 63) (hlen : (data.length : Int) < 2 ^ 63) (hH : NoTwin H data) :
+    (put H (endE H fs dmg) now id data).1 = .ok (H data, (data.length : Int)) ∧
+    dataOf (put H (endE H fs dmg) now id data).2 (fileName (H data) keyD) = some data ∧
+    (∃ t, (getBytes H (put H (endE H fs dmg) now id data).2 now' id).1 = .ok (data, ⟨H data, data.length, t⟩)) ∧
+    (∃ t, (getFile (put H (endE H fs dmg) now id data).2 now' id).1 =
+      .ok (fileName (H data) keyD, ⟨H data, data.length, t⟩)) := by
+  obtain ⟨hok, hst⟩ := stored_after_put H (endE H fs dmg) now id data hn0 hn1 hlen hH
+  exact ⟨hok, hst.2.1, hst.getBytes now', hst.getFile now'⟩
+
+/-- the stored entry of `exFS`, then: data file extended, index entry overwritten with junk, data file deleted. -/
+example : dataOf (put toyH (endE toyH exFS
+    [(1, .write (fileName (toyH [65]) keyD) [65, 0] 0), (2, .write (fileName id1 keyA) [1, 2, 3] 0),
+     (3, .delete (fileName (toyH [65]) keyD))]) 4 id1 [65]).2 (fileName (toyH [65]) keyD) = some [65] :=
+  (put_repairs_any_damage toyH exFS _ 4 5 id1 [65] (by decide) (by decide) (by decide) toyH_noTwin_65).2.1
+
+/-- **OutputFile.** The name it returns is a function of the OutputID alone (no directory state, no clock), distinct
+OutputIDs have distinct names, it changes no file content and no other file, and it refreshes the mtime of the named
+file (which `Trim` reads): kept if less than `mtimeInterval` old, otherwise set to the time of the call. -/
+theorem outputFile_name (fs fs' : FS) (now now' : Int) (out out' : Hash) :
+    (outputFile fs now out).1 = fileName out keyD ∧
+    ((outputFile fs now out).1 = (outputFile fs' now' out').1 ↔ out = out') ∧
+    SameData fs (outputFile fs now out).2 ∧
+    (∀ m, m ≠ fileName out keyD → (outputFile fs now out).2.get m = fs.get m) ∧
+    (outputFile fs now out).2.get (fileName out keyD) =
+      (fs.get (fileName out keyD)).map
+        (fun f => if Gen.Cache.usedFresh true (durSub now f.mtime) then f else { f with mtime := now }) :=
+  ⟨rfl, ⟨fun h => fileName_inj h, fun h => by rw [h]; rfl⟩, outputFile_sameData _ _ _,
+   fun m hm => get_used_ne _ _ _ _ hm, get_used_self _ _ _⟩
+
+example : (outputFile exFS 5 (toyH [65])).1 = (outputFile FS.empty 99 (toyH [65])).1 :=
+  (outputFile_name exFS FS.empty 5 99 (toyH [65]) (toyH [65])).2.1.mpr rfl
+
+/-! ### the no-collision hypothesis cannot be dropped -/
+
+/-- **Sharpness of `NoTwin` / `hcoll`.** A Put trusts a file already sitting under the output name when it has the
+length and the hash of `data` (`copyFile`'s re-use test): if those bytes are `junk`, then after `Put(id, data)`
+returns without error `GetBytes(id)` returns `junk` — bytes whose hash IS the reported OutputID (the gate holds),
+but not the bytes that were stored. -/
+theorem put_trusts_twin (H : Bytes → Hash) (fs : FS) (now now' : Int) (id : Hash) (data junk : Bytes) (mt : Int)
+    (hn0 : 0 ≤ now) (hn1 : now < 2 ^ 63) (hlen : (data.length : Int) < 2 ^ 63)
+    (hjunk : fs.get (fileName (H data) keyD) = some ⟨junk, mt⟩) (hl : junk.length = data.length) (hh : H junk = H data) :
+    ∃ t, (getBytes H (put H fs now id data).2 now' id).1 = .ok (junk, ⟨H data, data.length, t⟩) := by
+  obtain ⟨t, ht⟩ := (stored_twin_after_put H fs now id data junk mt hn0 hn1 hlen hjunk hl hh).getBytes now'
+  rw [hh, hl] at ht
+  exact ⟨t, ht⟩
+
+example : ∃ t, (getBytes (fun _ => id1) (put (fun _ => id1) (FS.empty.set (fileName id1 keyD) ⟨[66], 0⟩) 1 id1 [65]).2 2 id1).1 =
+    .ok ([66], ⟨id1, 1, t⟩) :=
+  put_trusts_twin (fun _ => id1) _ 1 2 id1 [65] [66] 0 (by decide) (by decide) (by decide) (FS.get_set_self _ _ _) rfl rfl
+
+/-- "after Put, GetBytes returns exactly data" for EVERY hash function and every directory — false: -/
+def put_get_any_hash_statement : Prop :=
+  ∀ (H : Bytes → Hash) (fs : FS) (now now' : Int) (id : Hash) (data : Bytes),
+    0 ≤ now → now < 2 ^ 63 → (data.length : Int) < 2 ^ 63 →
+    ∃ t, (getBytes H (put H fs now id data).2 now' id).1 = .ok (data, ⟨H data, data.length, t⟩)
+
+/-- counterexample: a constant hash function, the output file already holding `[66]`, `Put(id1, [65])`. -/
+theorem put_get_any_hash_false : ¬ put_get_any_hash_statement := by
+  intro h
+  obtain ⟨t, ht⟩ := h (fun _ => id1) (FS.empty.set (fileName id1 keyD) ⟨[66], 0⟩) 1 2 id1 [65] (by decide) (by decide) (by decide)
+  obtain ⟨t', ht'⟩ := put_trusts_twin (fun _ => id1) (FS.empty.set (fileName id1 keyD) ⟨[66], 0⟩) 1 2 id1 [65] [66] 0
+    (by decide) (by decide) (by decide) (FS.get_set_self _ _ _) rfl rfl
+  rw [ht] at ht'
+  simp at ht'
 
 end GIV.C05
